@@ -40,6 +40,8 @@ func main() {
 		os.Exit(cmdDumpFuncs(os.Args[2:]))
 	case "retcases":
 		os.Exit(cmdRetCases(os.Args[2:]))
+	case "bounds":
+		os.Exit(cmdBounds(os.Args[2:]))
 	case "norm":
 		os.Exit(cmdNorm(os.Args[2:]))
 	case "list":
